@@ -242,3 +242,10 @@ Theorem key_passes_are_source fc up key :
   keyDown fc up key = (match decode_key fc up key with None => None | Some keys => run_passes gen_keyDown_passes keys end) /\
   keyUp fc up key = (match decode_key fc up key with None => None | Some keys => run_passes gen_keyUp_passes keys end).
 Proof. split; [apply keyPress_is_source|]. split; [apply keyDown_is_source|apply keyUp_is_source]. Qed.
+
+(** ** framebufferUpdateRequest: the defaults (whole desktop from (x, y)) and the order of the packed fields *)
+From VD Require Import Base.Struct Gen.Formats.
+Theorem fbur_is_source s x y w h inc :
+  fbur s x y w h inc =
+  pack fmt_rfb_RFBClient_framebufferUpdateRequest_0 (map VI (gen_fbur_fields (cs_width s) (cs_height s) x y w h inc)).
+Proof. unfold fbur, framebufferUpdateRequest, gen_fbur_fields. destruct w, h; reflexivity. Qed.
